@@ -1,8 +1,19 @@
 # edited by hand; `python3 tools_manifest.py` regenerates MANIFEST.json
-GRID_NOTE = "trusted: the Python reference (int/Fraction arithmetic), the engine's canonical serialiser, rustc; bounded to the stated pools"
+GRID_NOTE = ("trusted: the Python reference (int/Fraction/IEEE/list-slicing semantics), the engine's canonical serialiser, "
+             "rustc; bounded to the stated pools and lengths (see evidence.coverage.bounds)")
+GRID_TECH = "bounded exhaustive input enumeration on the real interpreter (16 engine processes) against a Python reference model"
 CLAIMED = {
  "C06": ("exploration",
          "Every (operator, operand a, operand b) over a boundary pool of integers - each value in machine-word and big representation and produced by literal, ^, big difference, int(str) and bit-op routes - is evaluated on the real interpreter and compared with Python int arithmetic; the space is enumerated completely, not sampled.",
-         GRID_NOTE, "bounded exhaustive input enumeration on the real interpreter vs Python-int reference model", "DESIGN.md §4 C06"),
+         GRID_NOTE, GRID_TECH, "DESIGN.md §4 C06"),
+ "C07": ("exploration",
+         "Every (operator, a, b) over a pool of all four numeric levels (ints of every size, fractions incl. integral-valued, floats incl. non-finite, complex), every conversion function and every vector/scalar shape is run on the real interpreter; exact levels are compared with Fraction arithmetic including the result level, float level bit-exactly with IEEE plus the in-interpreter coercion law.",
+         GRID_NOTE, GRID_TECH, "DESIGN.md §4 C07"),
+ "C08": ("exploration",
+         "All ordered pairs of a pool of reals around 2^53/2^63/2^1024 (ints, fractions a hair away from floats, +-0, +-inf, subnormals) under all ten comparison forms, every list of length <= 4 over a sub-pool through sort/sort with comparator/sort_on/min/max, all pairs of short sequences and all pairs of kinds, compared with the exact rational order (stable sort, permutation, extremes, must-raise).",
+         GRID_NOTE, GRID_TECH, "DESIGN.md §4 C08"),
+ "C10": ("exploration",
+         "Every (sequence kind, length 0..5, index or slice-bound pair in [-len-3, len+3] plus extremes around +-2^63 and beyond plus non-integers, access form) incl. sections, !! !? !%, the accessor builtins and the write forms is run on the real interpreter and compared with Python list/bytes indexing and slicing.",
+         GRID_NOTE, GRID_TECH, "DESIGN.md §4 C10"),
 }
 NOT_YET = {("C%02d" % i): "check not built yet in this session (design in DESIGN.md §4); will be claimed when its explorer exists" for i in range(1, 18)}
